@@ -98,13 +98,41 @@ def apply_modifiers(obj, path):
     return obj
 
 
+SHARE = None  # when a dict: DataPath base objects are shared between paths with the same parts
+
+
+class sharing:
+    """with build.sharing(): paths that have the same parts are derived from ONE base
+    DataPath object (as a user writing `base = DataPath(...); base.length(); base.first()`
+    does), so that state hidden in shared path objects becomes observable."""
+
+    def __enter__(self):
+        global SHARE
+        self.prev = SHARE
+        SHARE = {}
+        return self
+
+    def __exit__(self, *a):
+        global SHARE
+        SHARE = self.prev
+        return False
+
+
 def build_path(path, source_data=None):
+    from .terms import dumps
+
     d = ns().d
     parts = path.parts if isinstance(path, PathT) else path
     kw = {}
     if source_data is not None:
         kw["source_data"] = source_data
-    obj = d.DataPath(*[build_part(p) for p in parts], **kw)
+    if SHARE is not None and source_data is None:
+        key = dumps(list(parts))
+        obj = SHARE.get(key)
+        if obj is None:
+            obj = SHARE[key] = d.DataPath(*[build_part(p) for p in parts])
+    else:
+        obj = d.DataPath(*[build_part(p) for p in parts], **kw)
     if isinstance(path, PathT):
         obj = apply_modifiers(obj, path)
     return obj
